@@ -341,6 +341,11 @@ def build_case(r, mode, nfiles, size, malformed=False, from_str=False):
         files[names[0]]["imports"] = []
     order = reachable(names, files)
     assign_targets(r, files, order, mode, malformed)
+    return finish_case(r, names, files, order, mode, from_str)
+
+
+def finish_case(r, names, files, order, mode, from_str=False):
+    """print the files (exact spans), index the targets, build the provider table"""
     ids = {"obj": 0, "ref": 0}
     texts, trees, refs = {}, {}, {}
     for fi, f in enumerate(order):
@@ -423,11 +428,16 @@ Definition show_case (tbl : list (nat * (nat * option target))) (trees : list no
 """
 
 
+def cons_list(items):
+    """right-nested conses: Coq parses nested [ ; ] notations very slowly"""
+    return "(" + "".join("%s :: " % x for x in items) + "nil)"
+
+
 def coq_node(n):
     if n[0] == "o":
-        return "NObj %d %d %d %s" % (n[1], n[2], n[3], core.coq_list(["(%s)" % coq_node(k) for k in n[5]]))
+        return "NObj %d %d %d %s" % (n[1], n[2], n[3], cons_list(["(%s)" % coq_node(k) for k in n[5]]))
     if n[0] == "r":
-        return "NRef %d %d %d %s" % (n[1], n[2], n[3], core.coq_str(n[4]))
+        return "NRef %d %d %d %s" % (n[1], n[2], n[3], cons_list(["%d" % ord(ch) for ch in n[4]]))
     return "NTok %d %d" % (n[1], n[2])
 
 
@@ -439,8 +449,8 @@ def coq_expr(case):
                 tbl.append("T %d %d %d %d %d" % (x["id"], x["delay"], x["tspan"][0], x["tspan"][1], x["tspan"][2]))
             else:
                 tbl.append("U %d %d" % (x["id"], x["delay"]))
-    trees = core.coq_list(["(%s)" % coq_node(case["trees"][f]) for f in case["order"]])
-    return "show_case %s (%s)%%N" % (core.coq_list(["(%s)" % t for t in tbl]) if tbl else "[]", trees)
+    trees = cons_list(["(%s)" % coq_node(case["trees"][f]) for f in case["order"]])
+    return "show_case %s (%s)%%N" % (cons_list(["(%s)" % t for t in tbl]), trees)
 
 
 def impl_canon(case, o):
@@ -609,7 +619,7 @@ def gen_cases(chk, n):
 
 def run(chk):
     chk.prove([])
-    n = 1500 if chk.thorough else 260
+    n = 1500 if chk.thorough else 200
     cases = load_corpus() + gen_cases(chk, n)
     impl = run_impl(cases)
     vals, errs = core.coq_eval("C34", IMPORTS, [coq_expr(c) for c in cases])
